@@ -125,6 +125,7 @@ def run(ctx):
     cases = dsgen.load_corpus("C12")
     ctx.cov["corpus_cases"] = len(cases)
     nrand = 1500 if ctx.quick else 6000
+    nrand = int(os.environ.get('VERIF_NCASES', nrand))            # self-tests: fewer random calls
     cases += [[gen_op(ctx, r)] for _ in range(nrand)]
     if not ctx.quick:
         # all (n, k, batch size) triples with n <= 24
